@@ -212,7 +212,7 @@ PROPS = {
                      "hdfimport: ranks 2 and 3, TEXT with -t FP32/FP64/INT32/INT16 and native FP32 / IN32 binary input, no -r raster options"],
     ),
     "C05": dict(
-        lean_props=["H4.Props.C05", "H4.Props.C05Bits", "H4.Props.C05NBit", "H4.Props.C05Skp"],
+        lean_props=["H4.Props.C05", "H4.Props.C05Bits", "H4.Props.C05NBit", "H4.Props.C05Skp", "H4.Props.C05Fn"],
         engines=[
             E("bits", "e_bits.c", model="bits", quick=dict(cases=2500, args=[700]), thorough=dict(cases=30000, seeds=8, args=[3000], chunk=200)),
             E("comp", "e_comp.c", model="rle", quick=dict(cases=1500, args=[2048]), thorough=dict(cases=20000, seeds=8, args=[66000], chunk=200)),
